@@ -132,14 +132,15 @@ class Problem:
         self.complex_state = any(isinstance(v, complex) for v in self.u0)
         self.is_complex = self.complex_state or isinstance(self.a, complex) or isinstance(self.b, complex)
         self.t_start = float(case["t_start"])
+        self.shape = [int(k) for k in case.get("shape") or [len(self.u0)]]
 
     def equation(self):
         return ForcedLinearODE(self.a, self.b, self.c, self.tc, self.ts, self.g)
 
     def field(self):
-        grid = pde.UnitGrid([len(self.u0)])
+        grid = pde.UnitGrid(self.shape)
         dtype = complex if self.complex_state else float
-        return pde.ScalarField(grid, np.array(self.u0, dtype=dtype), dtype=dtype)
+        return pde.ScalarField(grid, np.array(self.u0, dtype=dtype).reshape(self.shape), dtype=dtype)
 
     def u0_array(self):
         return np.array(self.u0, dtype=complex if self.is_complex else float)
@@ -412,7 +413,7 @@ def run_solve(prob, case, *, solver, backend, t_end, dt, cut_times=(), **solver_
     tracker = None
     if len(cut_times):
         def callback(state, t):
-            records.append((float(t), np.array(state.data, copy=True)))
+            records.append((float(t), np.array(state.data, copy=True).ravel()))
 
         tracker = [pde.CallbackTracker(callback, interrupts=[float(t) for t in cut_times])]
     eq = prob.equation()
@@ -423,7 +424,10 @@ def run_solve(prob, case, *, solver, backend, t_end, dt, cut_times=(), **solver_
                              tracker=tracker, ret_info=True, **solver_kw)
     if not np.array_equal(field.data, before):
         raise Violation("solve() modified the initial state", key=f"{solver}:{backend}:initial-state-modified")
-    data = np.asarray(res.data)
+    if res.data.shape != tuple(prob.shape):
+        raise Violation(f"result has shape {res.data.shape}, initial state {prob.shape}",
+                        key=f"{solver}:{backend}:shape")
+    data = np.asarray(res.data).ravel()
     if not np.all(np.isfinite(data)):
         raise Violation(f"non-finite result {data!r} for a bounded problem",
                         key=f"{solver}:{backend}:non-finite")
@@ -544,6 +548,8 @@ def check_fixed(case):
               "sharp-tol" if sharp else "weak-tol"]
     if solver == "crank-nicolson":
         labels.append("cn:alpha>0" if alpha > 0 else "cn:alpha=0")
+    if len(prob.shape) > 1:
+        labels.append("2d-state")
     if cf is not None:
         labels.append("closed-form")
     return {"nt": nt, "labels": labels, "ratio": worst}
@@ -689,6 +695,8 @@ def check_adaptive(case):
     else:
         labels.append("end-time-only")
     labels.append("steps>=10" if steps >= 10 else ("steps>=2" if steps >= 2 else "steps=1"))
+    if len(prob.shape) > 1:
+        labels.append("2d-state")
     return {"nt": steps >= 2, "labels": labels, "ratio": (err / (steps * tol_s)) if judged else 0.0}
 
 
@@ -881,6 +889,12 @@ def states(draw, complex_ok=True):
     return [enc(v) for v in vals]
 
 
+def shapes(n):
+    """grid shapes for a state of n cells (the steppers see arrays of that shape)"""
+    opts = [[n], [n]] + [[k, n // k] for k in range(1, n + 1) if n % k == 0 and n > 1]
+    return st.sampled_from(opts)
+
+
 @st.composite
 def start_times(draw):
     kind = draw(st.sampled_from(["zero", "zero", "small", "large", "neg"]))
@@ -939,7 +953,7 @@ def fixed_cases(draw, solvers=FIXED_SOLVERS, backends=("numpy", "numba"), cuts="
         k = draw(st.integers(1 if cuts == "some" else 0, min(3, n - 1)))
         cut_list = sorted(draw(st.sets(st.integers(1, n - 1), min_size=k, max_size=k)))
     case = {"solver": solver, "dt": dt, "n": n, "t_start": t_start, "a": enc(a), "b": enc(b), "c": c,
-            "tc": tc, "ts": ts, "u0": u0, "cuts": cut_list}
+            "tc": tc, "ts": ts, "u0": u0, "shape": draw(shapes(len(u0))), "cuts": cut_list}
     if backend is not None:
         case["backend"] = backend
     if g:
@@ -968,8 +982,10 @@ def adaptive_cases(draw, backends=("numpy", "numba"), forcing="mixed", solvers=(
                          st.sampled_from([1e-3, 0.1, 1.0]).map(lambda x: min(x, 10 * T))))
     ncut = draw(st.sampled_from([0, 0, 1, 2, 3]))
     cuts = sorted(draw(st.lists(st.floats(0.05, 0.95), min_size=ncut, max_size=ncut, unique=True)))
+    u0 = draw(states())
     case = {"solver": solver, "adaptive": True, "T": T, "t_start": t_start, "a": enc(a), "b": enc(b),
-            "c": c, "tc": tc, "ts": ts, "u0": draw(states()), "tolerance": tol, "dt0": dt0, "cuts": cuts,
+            "c": c, "tc": tc, "ts": ts, "u0": u0, "shape": draw(shapes(len(u0))), "tolerance": tol,
+            "dt0": dt0, "cuts": cuts,
             "explicit_flag": draw(st.booleans())}
     if backend is not None:
         case["backend"] = backend
@@ -989,10 +1005,11 @@ def rkf_cases(draw, backends=("numpy", "numba")):
     else:
         a = draw(z_values(1.5)) / T
         b, c, tc, ts = draw(forcings(T, t_start, mode="any"))
-        mode = draw(st.sampled_from(["accept", "accept", "accept", "reject"]))
+        mode = draw(st.sampled_from(["accept", "accept", "reject"]))
+    u0 = draw(states())
     return {"solver": draw(st.sampled_from(["runge-kutta", "runge-kutta", "euler"])),
             "backend": backend, "T": T, "t_start": t_start, "a": enc(a), "b": enc(b), "c": c, "tc": tc,
-            "ts": ts, "u0": draw(states()), "mode": mode, "factor": draw(st.sampled_from([4.0, 10.0, 100.0])),
+            "ts": ts, "u0": u0, "shape": draw(shapes(len(u0))), "mode": mode, "factor": draw(st.sampled_from([4.0, 10.0, 10.0, 100.0])),
             "dt0": T * draw(st.sampled_from([1.25, 1.5, 10.0]))}
 
 
@@ -1001,25 +1018,26 @@ def scipy_cases(draw, backends=("numpy", "numba")):
     backend = draw(st.sampled_from(list(backends)))
     T = draw(st.one_of(log_float(1e-2, 10.0), st.sampled_from([1.0, 0.5, 2.0])))
     t_start = draw(start_times())
+    real = draw(st.booleans())  # Radau needs a real problem
     rate = draw(st.sampled_from(["z", "z", "z", "zero"]))
     if rate == "zero":
         a = 0.0
-        b, c, tc, ts = draw(forcings(T, t_start, mode="only"))
+        b, c, tc, ts = draw(forcings(T, t_start, mode="only", complex_ok=not real))
     else:
-        z = draw(z_values(5.0, classes=("neg", "diss", "complex", "imag", "pos")))
+        z = draw(z_values(5.0, classes=("neg", "pos") if real else ("neg", "diss", "complex", "imag", "pos")))
         if z.real > 1.0:
             z = z / z.real
         a = z / T
-        b, c, tc, ts = draw(forcings(T, t_start, mode="any"))
+        b, c, tc, ts = draw(forcings(T, t_start, mode="any", complex_ok=not real))
     ncut = draw(st.sampled_from([0, 0, 1, 2]))
     cuts = sorted(draw(st.lists(st.floats(0.05, 0.95), min_size=ncut, max_size=ncut, unique=True)))
-    u0 = draw(states())
+    u0 = draw(states(complex_ok=not real))
     is_complex = any(isinstance(v, dict) for v in (enc(a), enc(b), *u0))
     # solve_ivp documents complex support for RK23, RK45, DOP853 and BDF only (BDF does not keep the
     # global error within 100x the local tolerance and is not used)
-    method = draw(st.sampled_from(["RK45", "DOP853"] if is_complex else ["RK45", "DOP853", "Radau"]))
+    method = draw(st.sampled_from(["RK45", "DOP853"] if is_complex else ["RK45", "DOP853", "Radau", "Radau"]))
     return {"backend": backend, "method": method, "T": T, "t_start": t_start, "a": enc(a), "b": enc(b),
-            "c": c, "tc": tc, "ts": ts, "u0": u0, "cuts": cuts,
+            "c": c, "tc": tc, "ts": ts, "u0": u0, "shape": draw(shapes(len(u0))), "cuts": cuts,
             "rtol": draw(log_float(1e-10, 1e-6)), "atol": draw(log_float(1e-12, 1e-8)),
             "dt0": draw(st.one_of(st.none(), log_float(1e-4, 1.0).map(lambda x: x * T)))}
 
